@@ -3,6 +3,7 @@ import dataclasses
 import enum
 import faulthandler
 import inspect
+import json
 import multiprocessing as mp
 import os
 import pickle
@@ -26,6 +27,70 @@ from annet.connectors import Connector
 from annet.lib import catch_ctrl_c, find_exc_in_stack
 from annet.output import capture_output
 from annet.tracing import tracing_connector
+
+
+# Verification hooks.  Inactive unless the environment variable ANNET_VERIF is set: then the parent loop
+# of Parallel.irun and _pool_worker append (monotonic time, actor, event, id) records to the file named by
+# ANNET_VERIF_TRACE and sleep at the points configured in ANNET_VERIF_SCHED (json:
+# {"get_timeout": seconds, "delay": {event: seconds | {"default": s, "id": {id: s}, "nth": {k: s}}}}).
+_verif_state: dict = {}
+
+
+def _verif_on() -> bool:
+    return bool(os.environ.get("ANNET_VERIF"))
+
+
+def _verif_sched() -> dict:
+    raw = os.environ.get("ANNET_VERIF_SCHED") or "{}"
+    if _verif_state.get("raw") != raw:
+        _verif_state["raw"] = raw
+        _verif_state["sched"] = json.loads(raw)
+        _verif_state["count"] = {}
+    return _verif_state["sched"]
+
+
+def _verif_event(actor, event, ident=None):
+    sched = _verif_sched()
+    path = os.environ.get("ANNET_VERIF_TRACE")
+    if path:
+        rec = json.dumps([time.monotonic(), actor, event, ident]) + "\n"
+        fd = os.open(path, os.O_WRONLY | os.O_APPEND | os.O_CREAT, 0o644)
+        try:
+            os.write(fd, rec.encode())
+        finally:
+            os.close(fd)
+    count = _verif_state["count"]
+    nth = count.get(event, 0)
+    count[event] = nth + 1
+    spec = sched.get("delay", {}).get(event)
+    if isinstance(spec, dict):
+        delay = spec.get("nth", {}).get(str(nth), spec.get("id", {}).get(str(ident), spec.get("default", 0)))
+    else:
+        delay = spec or 0
+    if delay:
+        time.sleep(delay)
+
+
+class _VerifDoneQueue:
+    """Parent-side view of the done queue: records what every get() returned (hooks only)."""
+
+    def __init__(self, done_queue):
+        self._queue = done_queue
+        self.last_payload = None
+
+    def get(self, block=True, timeout=None):
+        timeout = _verif_sched().get("get_timeout", timeout)
+        try:
+            item = self._queue.get(block, timeout)
+        except queue.Empty:
+            _verif_event("parent", "empty")
+            raise
+        self.last_payload = item[1].payload
+        _verif_event("parent", "get", self.last_payload)
+        return item
+
+    def __getattr__(self, name):
+        return getattr(self._queue, name)
 
 
 class PoolWorkerTaskType(enum.Enum):
@@ -122,8 +187,13 @@ def _pool_worker(pool, index, task_queue, done_queue):
     while True:
         task: PoolWorkerTask = task_queue.get()
         if task.type == PoolWorkerTaskType.STOP:
+            if _verif_on():
+                _verif_event(worker_name, "stop")
             _logger.debug("I received STOP, terminating...")
             return
+
+        if _verif_on():
+            _verif_event(worker_name, "take", task.payload)
 
         device_id: Optional[str] = None
         if isinstance(task.payload, tuple):
@@ -193,10 +263,16 @@ def _pool_worker(pool, index, task_queue, done_queue):
             task_result.extra["cap_stderr"] = cap_stderr.read()
 
         results = list(pool._run_callbacks(task_result, in_thread=True))  # pylint: disable=protected-access
+        if _verif_on():
+            _verif_event(worker_name, "put", task.payload)
         done_queue.put((worker_name, task, results, ret_exc))
+        if _verif_on():
+            _verif_event(worker_name, "put_done", task.payload)
 
         tasks_done += 1
         if pool.max_tasks and tasks_done >= pool.max_tasks:
+            if _verif_on():
+                _verif_event(worker_name, "retire")
             _logger.debug("Maximum tasks limit reached. Now I can retire")
             tracing_connector.get().force_flush()
             sys.exit(9)
@@ -361,8 +437,13 @@ class Parallel:
                 worker.start()
                 _logger.debug("Worker '%s' has been created with PID %d", worker_name, worker.pid)
 
+            if _verif_on():
+                done_queue = _VerifDoneQueue(done_queue)
+                _verif_event("parent", "start", {"pool_size": pool_size, "max_tasks": self.max_tasks})
             last_task_ts = time.monotonic()
             while True:
+                if _verif_on():
+                    _verif_event("parent", "iter")
                 exc = None
                 worker_name = None
                 in_thread_results = None
@@ -377,7 +458,14 @@ class Parallel:
                 except queue.Empty:
                     queue_empty = True
 
+                if _verif_on():
+                    _verif_pool_before = list(pool)
+                    _verif_event("parent", "before_reap")
                 retired_workers, failed_workers = self._check_children(pool)
+                if _verif_on():
+                    _verif_event("parent", "reap", {
+                        "retired": list(retired_workers), "failed": list(failed_workers),
+                        "removed": [name for name in _verif_pool_before if name not in pool]})
 
                 terminate_by_timeout = False
                 terminate_exc = None
@@ -396,6 +484,8 @@ class Parallel:
                         terminate_exc = annet.ExecError(f"Workers {failed_workers} exited with error")
 
                 if terminate_exc is not None:
+                    if _verif_on():
+                        _verif_event("parent", "abort", None if queue_empty else done_queue.last_payload)
                     for (name, worker) in pool.items():
                         if worker.exitcode is None:
                             if terminate_by_timeout:
@@ -416,6 +506,8 @@ class Parallel:
 
                     _logger.debug("Got a result from worker '%s', qsize is %s", worker_name, qsize)
 
+                    if _verif_on():
+                        _verif_event("parent", "deliver", done_queue.last_payload)
                     yield from [
                         result
                         for in_thread_result in in_thread_results
@@ -429,6 +521,8 @@ class Parallel:
                     _logger.debug("Worker '%s' has retired. Restart it", name)
                     pool[name] = mp.Process(name=name, target=pool_worker, args=worker_args)
                     pool[name].start()
+            if _verif_on():
+                _verif_event("parent", "break")
             task_queue.close()
             done_queue.close()
 
